@@ -218,6 +218,10 @@ pub fn judge(h: &History, st: &mut Stats) -> Verdict {
 }
 
 pub fn gen_case(t: &mut Tape) -> History {
+    // one history in five is built in phases around the 65535-byte threshold (see bld::gen_history_phased)
+    if t.chance(1, 5) {
+        return bld::gen_history_phased(t);
+    }
     bld::gen_history(t, 10)
 }
 
